@@ -112,7 +112,7 @@ var chainNodes = []nspec{
 	{"stateCount", []ak{aL}, []pspec{p("as", aS)}, "*", "="},
 	{"stateDuration", []ak{aL}, []pspec{p("unit", aD), p("as", aS)}, "*", "="},
 	{"flatten", nil, []pspec{p("on", aSL), p("delimiter", aS), p("tolerance", aD), p("dropOriginalFieldName")}, "*", "="},
-	{"combine", []ak{aLL}, []pspec{p("as", aS2), p("delimiter", aS), p("tolerance", aD), p("max", aI)}, "*", "="},
+	{"combine", []ak{aLL}, []pspec{p("as", aS2), p("delimiter", aS), p("tolerance", aD), p("max", aI)}, "*", "S"}, // combine always provides a stream
 	{"groupBy", []ak{aSL}, []pspec{p("exclude", aSL), p("byMeasurement")}, "*", "="},
 	{"groupBy", []ak{aStar}, []pspec{p("exclude", aSL)}, "*", "="},
 	{"mean", []ak{aS}, aggProps, "*", "S"},
